@@ -262,11 +262,14 @@ func (d *Decoder) LoadParityData() error {
 	return nil
 }
 
-func (d *Decoder) buildShards() [][]byte {
+func (d *Decoder) buildShards() ([][]byte, error) {
 	shards := make([][]byte, len(d.fileData)+len(d.parityData))
 	for i, data := range d.fileData {
 		if data == nil {
 			continue
+		}
+		if len(data) > d.shardByteCount {
+			return nil, errors.New("data file larger than parity data")
 		}
 		padding := make([]byte, d.shardByteCount-len(data))
 		shards[i] = append(data, padding...)
@@ -279,7 +282,7 @@ func (d *Decoder) buildShards() [][]byte {
 		shards[len(d.fileData)+i] = data
 	}
 
-	return shards
+	return shards, nil
 }
 
 func (d *Decoder) newReedSolomon() (reedsolomon.Encoder, error) {
@@ -371,7 +374,10 @@ func (d *Decoder) VerifyAllData() (ok bool, err error) {
 		return false, err
 	}
 
-	shards := d.buildShards()
+	shards, err := d.buildShards()
+	if err != nil {
+		return false, err
+	}
 
 	return rs.Verify(shards)
 }
@@ -388,7 +394,10 @@ func (d *Decoder) Repair(checkParity bool) ([]string, error) {
 		return nil, err
 	}
 
-	shards := d.buildShards()
+	shards, err := d.buildShards()
+	if err != nil {
+		return nil, err
+	}
 
 	err = rs.Reconstruct(shards)
 	if err != nil {
